@@ -26,6 +26,7 @@
 #include <stdlib.h>
 #include <assert.h>
 #include <errno.h>
+#include <float.h>
 #ifndef _WIN32
 # include <pwd.h>
 #endif
@@ -1045,6 +1046,12 @@ DLLIMPORT cfg_value_t *cfg_setopt(cfg_t *cfg, cfg_opt_t *opt, const char *value)
 			}
 			if (errno == ERANGE) {
 				cfg_error(cfg, _("floating point value for option '%s' is out of range"), opt->name);
+				return NULL;
+			}
+			/* strtod() also takes "inf", "infinity" and "nan": spellings,
+			 * not numbers a configuration value can have */
+			if (f != f || f > DBL_MAX || f < -DBL_MAX) {
+				cfg_error(cfg, _("invalid floating point value for option '%s'"), opt->name);
 				return NULL;
 			}
 		}
